@@ -56,7 +56,7 @@ pub struct SweepCase {
     pub c: i64,
     pub d: i64,
 }
-pub const N_OPS: u16 = 96;
+pub const N_OPS: u16 = 99;
 
 fn extreme_i64() -> BoxedStrategy<i64> {
     prop_oneof![
@@ -90,7 +90,7 @@ impl SubCheck for Sweep {
         "api_sweep"
     }
     fn rule(&self) -> &'static str {
-        "case = (entry point index over 96 public non-deprecated fallible operations, receiver value biased to both range ends incl. headroom wall clocks, four i64 arguments biased to integer extremes and field limits); the call must return normally and any returned value must satisfy its type's invariants; non-trivial = an argument is an integer extreme, or the receiver is within a day of a range end"
+        "case = (entry point index over 99 groups of public fallible operations (incl. the deprecated NaiveDateTime::from_timestamp_* family, rounding receivers at the 64-bit nanosecond window ends, occurrence counts over the whole u8 range), receiver value biased to both range ends incl. headroom wall clocks, four i64 arguments biased to integer extremes and field limits); the call must return normally and any returned value must satisfy its type's invariants; non-trivial = an argument is an integer extreme, or the receiver is within a day of a range end"
     }
     fn strategy(&self) -> Option<BoxedStrategy<SweepCase>> {
         Some((0u16..N_OPS, receiver(), extreme_i64(), extreme_i64(), extreme_i64(), extreme_i64()).prop_map(|(op, (day, t, off), a, b, c, d)| SweepCase { op, day, t, off, a, b, c, d }).boxed())
@@ -224,6 +224,40 @@ impl SubCheck for Sweep {
                 if let Ok(x) = call("Parsed::to_datetime_with_timezone", || p.to_datetime_with_timezone(&fo2))? { inv_dt("to_datetime_with_timezone", &x)?; }
                 if let Ok(x) = call("Parsed::to_datetime_with_timezone(Utc)", || p.to_datetime_with_timezone(&Utc))? { inv_dt("to_datetime_with_timezone", &x)?; }
                 let _ = call("Parsed::to_fixed_offset", || p.to_fixed_offset())?;
+            }
+            96 => {
+                // the deprecated NaiveDateTime constructors are fallible by value too
+                #[allow(deprecated)]
+                {
+                    on!("NaiveDateTime::from_timestamp_opt", NaiveDateTime::from_timestamp_opt(a, b as u32));
+                    on!("NaiveDateTime::from_timestamp_millis", NaiveDateTime::from_timestamp_millis(a));
+                    on!("NaiveDateTime::from_timestamp_micros", NaiveDateTime::from_timestamp_micros(a));
+                    on!("NaiveDateTime::from_timestamp_nanos", NaiveDateTime::from_timestamp_nanos(a));
+                    // negative counts with every kind of sub-second remainder
+                    let neg = -(a.unsigned_abs() as i128 % 4_000_000_000_000_000) as i64 - 1;
+                    on!("NaiveDateTime::from_timestamp_millis", NaiveDateTime::from_timestamp_millis(neg));
+                    on!("NaiveDateTime::from_timestamp_micros", NaiveDateTime::from_timestamp_micros(neg));
+                    on!("NaiveDateTime::from_timestamp_nanos", NaiveDateTime::from_timestamp_nanos(neg));
+                }
+            }
+            97 => {
+                // rounding receivers at the two ends of the 64-bit nanosecond window, spans of every size
+                let k = (b.unsigned_abs() % 200_000_000_000_000) as i64;
+                let spans = [td2, TimeDelta::nanoseconds(a.checked_abs().unwrap_or(i64::MAX).max(1)), TimeDelta::nanoseconds(i64::MAX), TimeDelta::days(1), TimeDelta::hours(1), TimeDelta::nanoseconds(k.max(1))];
+                for stamp in [i64::MIN + k, i64::MIN + (k % 4000), i64::MAX - k, i64::MAX - (k % 4000)] {
+                    let w = DateTime::from_timestamp_nanos(stamp);
+                    for sp in spans {
+                        for r in [call("DateTime::duration_round", || w.duration_round(sp))?, call("DateTime::duration_trunc", || w.duration_trunc(sp))?, call("DateTime::duration_round_up", || w.duration_round_up(sp))?] { if let Ok(x) = r { inv_dt("DurationRound at the window end", &x)?; } }
+                        let n = w.naive_utc();
+                        for r in [call("NaiveDateTime::duration_round", || n.duration_round(sp))?, call("NaiveDateTime::duration_trunc", || n.duration_trunc(sp))?, call("NaiveDateTime::duration_round_up", || n.duration_round_up(sp))?] { if let Ok(x) = r { inv_ndt("DurationRound at the window end", &x)?; } }
+                    }
+                }
+            }
+            98 => {
+                // occurrence counts over the whole u8 range
+                let n = (a.wrapping_mul(0x9E37_79B9_7F4A_7C15u64 as i64) >> 56) as u8;
+                od!("NaiveDate::from_weekday_of_month_opt", NaiveDate::from_weekday_of_month_opt(date.year(), date.month(), wd, n));
+                od!("NaiveDate::from_weekday_of_month_opt", NaiveDate::from_weekday_of_month_opt(date.year(), date.month(), wd, (d as u8) | 32));
             }
             _ => {}
         }
